@@ -3,11 +3,14 @@ from __future__ import annotations
 
 import json
 import re
+import shutil
+import subprocess
+from concurrent.futures import ThreadPoolExecutor
 from decimal import Decimal, InvalidOperation
 from pathlib import Path
 
 from harness import coq
-from harness.common import VERIF, drain_failures, make_orchestrator, parse_json_violations, pool_map, rng_for, run_cli, scratch_dir
+from harness.common import NPROC, VERIF, drain_failures, make_orchestrator, parse_json_violations, pool_map, rng_for, run_cli, scratch_dir
 from harness.framework import Check
 from harness.props import c02_render as R
 
@@ -144,7 +147,9 @@ def gen_lit(r, lang, small_bias=False):
 # ------------------------------------------------------------------ file generation
 CTX_WEIGHTS = {"Assign": 6, "Arg": 4, "Return": 4, "Default": 2, "Elts": 3, "Compare": 3, "Binop": 2, "Mul": 2, "Neg": 2,
                "Upper": 6, "UpperNeg": 3, "UpperAnn": 3, "UpperTuple": 3, "Range": 4, "Enumerate": 3, "StrRepeatL": 2,
-               "StrRepeatR": 2, "DictKeys": 2, "TsEnum": 3, "RsStatic": 3}
+               "StrRepeatR": 2, "DictKeys": 2, "TsEnum": 3, "RsStatic": 3, "Interp": 3, "Decorator": 2, "Nested": 2, "Match": 2,
+               "Kwarg": 2, "Index": 2, "Lambda": 2, "Macro": 3}
+LANG_KEY = {"py": "python", "ts": "typescript", "js": "javascript", "rs": "rust"}
 
 
 def gen_site(r, lang, kind):
@@ -158,7 +163,8 @@ def gen_site(r, lang, kind):
         if c == "Range":
             n = r.choice([1, 1, 2])
     small = c in ("Range", "Enumerate")
-    return {"ctx": c, "name": name, "lits": [gen_lit(r, lang, small) for _ in range(n)], "line": 0}
+    lits = [gen_numeric(r, lang) if c == "Match" else gen_lit(r, lang, small) for _ in range(n)]
+    return {"ctx": c, "name": name, "lits": lits, "line": 0}
 
 
 def gen_file(r, lang):
@@ -199,32 +205,60 @@ def file_values(f):
     return out
 
 
+def effective(cfg, lang):
+    """(level, list) of the allowed_numbers in effect for a file of `lang` under the documented precedence:
+    language sub-section, then the top level, then the default"""
+    sec = cfg["langs"].get(LANG_KEY[lang])
+    if sec is not None and sec.get("allowed") is not None:
+        return "lang", sec["allowed"]
+    if cfg["allowed"] is not None:
+        return "top", cfg["allowed"]
+    return "top", [(v, 0) for v in DEFAULT_ALLOWED]
+
+
+def gen_allowed(r, vals):
+    k = r.random()
+    if k < 0.3:
+        return None
+    if k < 0.45:
+        return []
+    if k < 0.7:
+        return [r.choice(vals) for _ in range(r.randint(1, 3))]
+    if k < 0.85:
+        return [r.choice([(0, 0), (1, 0), (-1, 0), (25, -1), (5, -1), (2, 0), (1, 3)]) for _ in range(r.randint(1, 3))]
+    return [(v, 0) for v in [-1, 0, 1, 2, 3, 4, 5, 10, 100, 1000]]
+
+
 def gen_configs(r, f):
-    """configurations as {"allowed": None | [(m, e)], "max_small": None | int, "delta": None | (base index, +/-, value)}"""
+    """configurations {"allowed": None | [(m, e)], "max_small": None | int, "langs": {language key: {"allowed"?, "max_small"?}},
+    "delta": None | [base index, +/-, value]}: top-level keys and per-language sub-sections, each key optional"""
     vals = file_values(f) or [(7, 0)]
     cfgs = []
     for _ in range(r.choice([1, 2, 2])):
-        k = r.random()
-        if k < 0.3:
-            al = None
-        elif k < 0.45:
-            al = []
-        elif k < 0.7:
-            al = [r.choice(vals) for _ in range(r.randint(1, 3))]
-        elif k < 0.85:
-            al = [r.choice([(0, 0), (1, 0), (-1, 0), (25, -1), (5, -1), (2, 0), (1, 3)]) for _ in range(r.randint(1, 3))]
-        else:
-            al = [(v, 0) for v in [-1, 0, 1, 2, 3, 4, 5, 10, 100, 1000]]
-        ms = None if r.random() < 0.35 else r.randint(1, 12)
-        cfgs.append({"allowed": al, "max_small": ms, "delta": None})
+        langs = {}
+        if r.random() < 0.4:
+            for key in LANG_KEY.values():
+                if r.random() < (0.7 if key == LANG_KEY[f["lang"]] else 0.3):
+                    sec = {}
+                    if r.random() < 0.5:
+                        sec["allowed"] = gen_allowed(r, vals) or []
+                    if r.random() < 0.5:
+                        sec["max_small"] = r.randint(1, 12)
+                    langs[key] = sec
+        cfgs.append({"allowed": gen_allowed(r, vals), "max_small": None if r.random() < 0.35 else r.randint(1, 12), "langs": langs, "delta": None})
     base = list(cfgs)
-    for bi, c in enumerate(base):                              # cfg + a, cfg - a
-        cur = [R.norm(*x) for x in (c["allowed"] if c["allowed"] is not None else [(v, 0) for v in DEFAULT_ALLOWED])]
+    for bi, c in enumerate(base):                              # cfg + a, cfg - a on the list in effect
+        level, eff = effective(c, f["lang"])
+        cur = [R.norm(*x) for x in eff]
         a = r.choice(vals) if r.random() < 0.8 else R.norm(r.randint(0, 50), 0)
-        if a in cur:
-            cfgs.append({"allowed": [x for x in cur if x != a], "max_small": c["max_small"], "delta": [bi, "-", list(a)]})
+        new, sign = ([x for x in cur if x != a], "-") if a in cur else (cur + [a], "+")
+        d = json.loads(json.dumps(c))
+        if level == "lang":
+            d["langs"][LANG_KEY[f["lang"]]]["allowed"] = new
         else:
-            cfgs.append({"allowed": cur + [a], "max_small": c["max_small"], "delta": [bi, "+", list(a)]})
+            d["allowed"] = new
+        d["delta"] = [bi, sign, list(a)]
+        cfgs.append(d)
     return cfgs
 
 
@@ -251,12 +285,19 @@ def py_number(m: int, e: int):
     return m * 10 ** e if e >= 0 else float(f"{m}e{e}")
 
 
-def impl_config(cfg) -> dict:
+def _section(allowed, max_small) -> dict:
     sec = {}
-    if cfg["allowed"] is not None:
-        sec["allowed_numbers"] = [py_number(*a) for a in cfg["allowed"]]
-    if cfg["max_small"] is not None:
-        sec["max_small_integer"] = cfg["max_small"]
+    if allowed is not None:
+        sec["allowed_numbers"] = [py_number(*a) for a in allowed]
+    if max_small is not None:
+        sec["max_small_integer"] = max_small
+    return sec
+
+
+def impl_config(cfg) -> dict:
+    sec = _section(cfg["allowed"], cfg["max_small"])
+    for key, sub in cfg.get("langs", {}).items():
+        sec[key] = _section(sub.get("allowed"), sub.get("max_small"))
     return {"magic-numbers": sec} if sec else {}
 
 
@@ -324,10 +365,15 @@ def run_impl(case):
 
 
 # ------------------------------------------------------------------ Coq side
-def coq_cfg(cfg) -> str:
-    al = "None" if cfg["allowed"] is None else "(Some " + coq.coq_list([R.coq_num(*a) for a in cfg["allowed"]]) + ")"
-    ms = "None" if cfg["max_small"] is None else f"(Some {R.coq_z(cfg['max_small'])})"
-    return f"(mk_cfg {al} {ms})"
+def coq_cfg(cfg, lang="py") -> str:
+    def opt_list(al):
+        return "None" if al is None else "(Some " + coq.coq_list([R.coq_num(*a) for a in al]) + ")"
+
+    def opt_z(z):
+        return "None" if z is None else f"(Some {R.coq_z(z)})"
+    sec = cfg.get("langs", {}).get(LANG_KEY[lang])
+    ls = "None" if sec is None else f"(Some ({opt_list(sec.get('allowed'))}, {opt_z(sec.get('max_small'))}))"
+    return f"(mk_cfg {opt_list(cfg['allowed'])} {opt_z(cfg['max_small'])} {ls})"
 
 
 def coq_rep(r) -> str:
@@ -342,19 +388,69 @@ def coq_case(case, impl) -> str:
     runs = []
     for cfg, r in zip(case["cfgs"], impl["runs"]):
         reps = [] if isinstance(r, dict) else [coq_rep(x) for x in r]
-        runs.append(f"({coq_cfg(cfg)}, {coq.coq_list(reps)})")
+        runs.append(f"({coq_cfg(cfg, case['file']['lang'])}, {coq.coq_list(reps)})")
     f = R.coq_file(case["file"])
     return (f"Eval vm_compute in (judge magic_actual {COQ_LANG[case['file']['lang']]} {f} {coq.coq_list(runs)}).\n"
             f"Eval vm_compute in (lit_texts {f}).")
 
 
-def judge(cases, impls, workdir: Path, per_shard=30):
+def _run_shard(args):
+    path, th = args
+    p = subprocess.run(["timeout", "600", "coqc", "-Q", str(th), "TL", "-w", "-notation-overridden,-abstract-large-number", str(path)],
+                       capture_output=True, text=True, cwd=str(path.parent))
+    return p.returncode, p.stdout, p.stderr
+
+
+def eval_shards(workdir: Path, shards, th: Path):
+    workdir.mkdir(parents=True, exist_ok=True)
+    jobs = []
+    for i, body in enumerate(shards):
+        p = workdir / f"cases_{i}.v"
+        p.write_text(HEADER + "\n" + body + "\n")
+        jobs.append((p, th))
+    with ThreadPoolExecutor(max_workers=NPROC) as ex:
+        outs = list(ex.map(_run_shard, jobs))
+    results = []
+    for (rc, so, se), (p, _) in zip(outs, jobs):
+        if rc != 0:
+            raise RuntimeError(f"coqc failed on {p.name} (rc={rc}): {se[-1500:]}")
+        results.append(coq.parse_nat_lists(so))
+    return results
+
+
+def recorded_layer_theories(dst: Path) -> Path | None:
+    """When the current generated layer (or the model on top of it) no longer builds, the model can still be run with the
+    generated layer recorded for the unchanged tree (coq/Gen.expected/MagicGen.v.txt).  This discharges nothing (the run is
+    already failed by the broken obligation); it only lets the search exhibit a concrete input on which the changed
+    implementation departs from the documented rule."""
+    snap = coq.COQ / "Gen.expected" / "MagicGen.v.txt"
+    if not snap.exists():
+        return None
+    th = dst / "theories"
+    for sub in ("Lib", "Model", "Gen", "Actual"):
+        (th / sub).mkdir(parents=True, exist_ok=True)
+    for f in (coq.TH / "Lib").glob("*.vo"):
+        shutil.copy(f, th / "Lib" / f.name)
+    (th / "Gen" / "MagicGen.v").write_text(snap.read_text())
+    order = [("Gen", "MagicGen.v"), ("Model", "MagicNum.v"), ("Model", "Magic.v"), ("Model", "MagicSpec.v"), ("Model", "MagicRun.v"),
+             ("Actual", "MagicActual.v")]
+    for sub, name in order[1:]:
+        shutil.copy(coq.TH / sub / name, th / sub / name)
+    for sub, name in order:
+        p = subprocess.run(["timeout", "300", "coqc", "-Q", str(th), "TL", "-w", "-notation-overridden", str(th / sub / name)],
+                           capture_output=True, text=True, cwd=str(dst))
+        if p.returncode != 0:
+            return None
+    return th
+
+
+def judge(cases, impls, workdir: Path, per_shard=30, th: Path | None = None):
     shards, index = [], []
     for s in range(0, len(cases), per_shard):
         chunk = list(range(s, min(len(cases), s + per_shard)))
         shards.append("\n".join(coq_case(cases[j], impls[j]) for j in chunk))
         index.append(chunk)
-    outs = coq.eval_shards(workdir, HEADER, shards)
+    outs = eval_shards(workdir, shards, th or coq.TH)
     verdicts = [None] * len(cases)
     for chunk, out in zip(index, outs):
         if len(out) != 2 * len(chunk):
@@ -432,13 +528,16 @@ def run(tier: str, seed: int, replay: str | None = None) -> int:
     chk = Check(PROP, tier, seed)
     load_known_d(chk)
     chk.rule = ("seeded random files in Python / TypeScript / JavaScript / Rust: 1-5 scopes (module level, function, method, nested function, "
-                "class / impl body, Rust #[test] / #[cfg(test)] scopes), 0-6 one-line statements each placing 1-6 literals in one of 20 contexts "
-                "(assignment, argument, return, default, collection, comparison, arithmetic, negation, UPPER_CASE definition in four shapes, "
-                "range / enumerate, string repetition, dict keys, enum member, static item); literals: decimal, hex / octal / binary, "
+                "class / impl body, Rust #[test] / #[cfg(test)] scopes), 0-6 statements each placing 1-6 literals in one of 28 contexts "
+                "(assignment, argument, keyword argument, decorator argument, return, default, collection, nested collection, comparison, "
+                "arithmetic, negation, subscript, lambda / arrow / closure body, f-string / template-string substitution, match / switch arm, "
+                "Rust macro argument, UPPER_CASE definition in four shapes, range / enumerate, string repetition, dict keys, enum member, "
+                "static item); literals: decimal, hex / octal / binary, "
                 "underscore-separated, Rust-suffixed, BigInt, short floats with exponents, booleans, digit strings, identifiers; file names from "
                 "a pool (plain, test-named, constants modules, look-alikes); each file linted under 2-4 configurations (default / empty / "
-                "singleton / float allowed_numbers drawn from the file's own values, max_small_integer 1..12) plus each configuration with one "
-                "value added to or removed from allowed_numbers; a case (file, configuration) is non-trivial when the documented rule reports "
+                "singleton / float allowed_numbers drawn from the file's own values, max_small_integer 1..12, and in 40 % per-language "
+                "python / typescript / javascript / rust sub-sections setting none, one or both keys) plus each configuration with one "
+                "value added to or removed from the allowed_numbers list in effect; a case (file, configuration) is non-trivial when the documented rule reports "
                 "at least one literal and leaves at least one numeric literal unreported; distinct = distinct (file, configuration)")
     chk.trusted_base += [
         "to_py / to_ts / to_rs (Model/Magic.v): the ancestor chain and node type the parsers give each literal of a rendered statement are "
@@ -464,10 +563,18 @@ def run(tier: str, seed: int, replay: str | None = None) -> int:
     t1 = time.time()
     with scratch_dir("tv-c02-coq-") as wd:
         try:
-            verdicts = judge(cases, impls, wd)
+            verdicts = judge(cases, impls, wd / "a")
         except RuntimeError as e:
             chk.broken.append(f"Model:evaluation of the magic-numbers model failed ({str(e)[:400]})")
             verdicts = [None] * len(cases)
+            th = recorded_layer_theories(wd / "recorded")
+            if th is not None:
+                chk.notes.append("the current generated layer / model does not build: cases were judged with the generated layer recorded for "
+                                 "the unchanged tree (coq/Gen.expected/MagicGen.v.txt) to search for a failing input")
+                try:
+                    verdicts = judge(cases, impls, wd / "b", th=th)
+                except RuntimeError as e2:
+                    chk.broken.append(f"Model:evaluation with the recorded generated layer failed too ({str(e2)[:300]})")
     chk.extra_cov["stage_seconds"] = {"build_and_generate": round(t0 - chk.t0, 1), "implementation_runs": round(t1 - t0, 1),
                                       "model_evaluation_in_coq": round(time.time() - t1, 1)}
     cands_all = {}
@@ -498,9 +605,11 @@ def run(tier: str, seed: int, replay: str | None = None) -> int:
             chk.broken.append("Model:lit_chars differs from the renderer's literal text on case " + str(case["i"]))
         for cfg, r, bits in zip(case["cfgs"], impl["runs"], bits_all):
             n_spec, n_num = bits[0], bits[1]
-            chk.count([f, cfg["allowed"], cfg["max_small"]], 0 < n_spec < n_num)
+            chk.count([f, cfg["allowed"], cfg["max_small"], cfg.get("langs")], 0 < n_spec < n_num)
             chk.dist("allowed:" + ("default" if cfg["allowed"] is None else "empty" if not cfg["allowed"] else "list"))
             chk.dist("delta:" + ("none" if cfg["delta"] is None else cfg["delta"][1]))
+            sec = cfg.get("langs", {}).get(LANG_KEY[f["lang"]])
+            chk.dist("language-section:" + ("none" if sec is None else "+".join(sorted(sec)) or "empty"))
             if isinstance(r, dict):
                 chk.violation({"reason": "CLI run failed", "detail": r, "config": impl_config(cfg), **small})
                 continue
